@@ -22,23 +22,45 @@ Consequences, each a theorem below: no infinite run of internal steps (the libra
 ping-pong on itself, whatever the scheduler does); a quiescent state with a pending `Next`/`Close`
 always has a *specific* outstanding environment call; once that environment answers — however slowly,
 in whatever order — a pending `Next` / `Close` returns after at most `nu` further steps of the whole
-system. Nothing here assumes scheduler fairness beyond "an enabled step is eventually taken".
+system.
+
+**What exactly is proved, and what is assumed.** The theorems are about *runs of the LTS* (lists of labels):
+(i) a bound on the length of every run that contains no `nextCall` / `closeCall` (MapIterator: no `nextCall`)
+— these are the only labels excluded from the measure, being the labels by which the single consumer starts
+a new call, enabled only while it is idle; (ii) "quiescent (no label with `isEnv = false` enabled) and a call
+pending ⇒ a call of `f` is running or a call on the source is unanswered"; (iii) existence of a run to the
+return made of internal steps and returns of `f` / the source only. "`Next` / `Close` returns" in the prose
+below is (i) + (ii) + (iii) **under two assumptions that are not part of any theorem**: a step that is
+enabled is eventually taken (weak fairness of single steps — in fact only "the system does not stop while an
+internal step is enabled"), and calls of `f` and of the source return. No statement here is about wall-clock
+time.
+
+**Ties.** As in `Props/C14.lean`, every theorem takes `cfg.code = Stream.code` / `Iter.code` and discharges
+`stream_ties` / `iter_ties` inside its proof. The MapStream measure needs `Code.Sound.ctxPlain` (the library's
+context does not end by itself: `libCtxEnd` disabled), the bound and the quiescence theorems the invariants;
+every MapIterator theorem needs `Code.Sound.sectionsAtomic` (the dispatcher's check and its parking are one
+step, because both critical sections lock `mapIterator.m`, which is `cond.L`) — in the LTS of code without it
+`dPark` is a step of its own, a `Signal` can be lost, and (ii) / (iii) are false (`Props/C14.lean`, last
+example).
 -/
 namespace Juniper.Props.C14Progress
 open Juniper.Gen Juniper.Model.ParMap Juniper.Proofs.ParMap
 
 /-! ## MapStream -/
 
-/-- **The measure (MapStream).** Every step other than a new consumer call strictly decreases `SM.nu`
-— in every state, reachable or not, and whatever the generated guards are; and in reachable states of
-the code as it is, `SM.nu` is at most `8·max(B,P') + 6·P' + 21` where `P'` is the clamped parallelism. -/
-theorem mapStream_measure (cfg : Stream.Cfg) :
+/-- **The measure (MapStream).** Every step other than a new consumer call (`nextCall`, `closeCall`)
+strictly decreases `SM.nu` — all internal labels and the environment's `srcRet`, `srcCloseRet`, `fRet`,
+`consCtxExpire`, `parentCancel` — in every state, reachable or not; the only fact about the code used for
+this half is `ctxPlain` (`libCtxEnd`, "the library's context ends by itself", is not a step of the code as
+it is). In reachable states `SM.nu` is at most `8·max(B,P') + 6·P' + 21` where `P'` is the clamped
+parallelism. -/
+theorem mapStream_measure (cfg : Stream.Cfg) (hc : cfg.code = Stream.code) :
     (∀ s l s', Stream.step cfg s l = some s' → SM.isCall l = false → SM.nu s' < SM.nu s) ∧
-    (cfg.code = Stream.code → 1 ≤ cfg.gmp → ∀ s, Stream.Reach cfg s →
+    (1 ≤ cfg.gmp → ∀ s, Stream.Reach cfg s →
       SM.nu s ≤ 8 * (max cfg.B (Stream.par cfg)).toNat + 6 * (Stream.par cfg).toNat + 21) := by
-  refine ⟨fun s l s' h hl => SM.nu_decreases h hl, ?_⟩
-  intro hc hg s h
-  have hs : cfg.code.Sound := hc ▸ stream_code_sound
+  have hs : cfg.code.Sound := hc ▸ stream_code_sound stream_ties
+  refine ⟨fun s l s' h hl => SM.nu_decreases hs.ctxPlain h hl, ?_⟩
+  intro hg s h
   have := SM.nu_le hs hg h
   simp only [SM.nuBound, S.numTokens_eq hs, S.numWorkers_eq hs, S.buf_eq hs] at this
   exact this
@@ -62,10 +84,11 @@ theorem mapStream_internal_steps_terminate (cfg : Stream.Cfg) (hc : cfg.code = S
       ls.length ≤ 8 * (max cfg.B (Stream.par cfg)).toNat + 6 * (Stream.par cfg).toNat + 21) ∧
     ¬ ∃ σ : Nat → Stream.St, σ 0 = s ∧
         ∀ n, ∃ l, Stream.Label.isEnv l = false ∧ Stream.step cfg (σ n) l = some (σ (n + 1)) := by
-  have hb := (mapStream_measure cfg).2 hc hg s h
+  have hs : cfg.code.Sound := hc ▸ stream_code_sound stream_ties
+  have hb := (mapStream_measure cfg hc).2 hg s h
   constructor
   · intro ls s' hl hr
-    have := SM.run_nu hr (fun l hm => SM.isCall_of_not_env (hl l hm))
+    have := SM.run_nu hs.ctxPlain hr (fun l hm => SM.isCall_of_not_env (hl l hm))
     exact ⟨this, by omega⟩
   · rintro ⟨σ, h0, hσ⟩
     have key : ∀ n, n + SM.nu (σ n) ≤ SM.nu (σ 0) := by
@@ -74,7 +97,7 @@ theorem mapStream_internal_steps_terminate (cfg : Stream.Cfg) (hc : cfg.code = S
       | zero => simp
       | succ n ih =>
         obtain ⟨l, hl, hst⟩ := hσ n
-        have := SM.nu_decreases hst (SM.isCall_of_not_env hl)
+        have := SM.nu_decreases hs.ctxPlain hst (SM.isCall_of_not_env hl)
         omega
     have := key (SM.nu (σ 0) + 1)
     omega
@@ -98,10 +121,10 @@ theorem mapStream_quiescent_next_served (cfg : Stream.Cfg) (hc : cfg.code = Stre
     (∃ ls s', (∀ l ∈ ls, Stream.Label.isEnv l = false) ∧ Stream.run cfg s ls = some s' ∧
         ls.length ≤ SM.nu s ∧ SM.Quiescent cfg s') ∧
     (SM.Quiescent cfg s → S.consBusy s.cons = true → 0 < Stream.fRunning s ∨ Stream.srcBusy s = true) := by
-  have hs : cfg.code.Sound := hc ▸ stream_code_sound
+  have hs : cfg.code.Sound := hc ▸ stream_code_sound stream_ties
   constructor
-  · obtain ⟨ls, s', h1, h2, h3⟩ := SM.exists_quiescent_run cfg (SM.nu s) s (Nat.le_refl _)
-    have := SM.run_nu h2 (fun l hm => SM.isCall_of_not_env (h1 l hm))
+  · obtain ⟨ls, s', h1, h2, h3⟩ := SM.exists_quiescent_run cfg hs.ctxPlain (SM.nu s) s (Nat.le_refl _)
+    have := SM.run_nu hs.ctxPlain h2 (fun l hm => SM.isCall_of_not_env (h1 l hm))
     exact ⟨ls, s', h1, h2, by omega, h3⟩
   · intro hq hb
     rcases S.progress hs hg h hb with ⟨l, hl, hen⟩ | h' | h'
@@ -135,11 +158,11 @@ theorem mapStream_next_terminates (cfg : Stream.Cfg) (hc : cfg.code = Stream.cod
       s'.cons = .idle ∧ ∃ r, s'.results = s.results ++ [r]) ∧
     (∃ ls s', (∀ l ∈ ls, Stream.Label.isEnv l = false ∨ SM.isReturn l = true) ∧
       Stream.run cfg s ls = some s' ∧ ls.length ≤ SM.nu s ∧ s'.cons = .idle ∧ ∃ r, s'.results = s.results ++ [r]) := by
-  have hs : cfg.code.Sound := hc ▸ stream_code_sound
+  have hs : cfg.code.Sound := hc ▸ stream_code_sound stream_ties
   have h0 : SM.NextOutcome s s := Or.inl ⟨hn, rfl⟩
-  refine ⟨?_, (mapStream_measure cfg).2 hc hg s h, ?_, ?_⟩
+  refine ⟨?_, (mapStream_measure cfg hc).2 hg s h, ?_, ?_⟩
   · intro ls s' hl hr
-    exact ⟨SM.run_nu hr hl, SM.nextOutcome_run h0 hl hr⟩
+    exact ⟨SM.run_nu hs.ctxPlain hr hl, SM.nextOutcome_run h0 hl hr⟩
   · intro ls s' hl hr hq hf hsrc
     rcases SM.nextOutcome_run h0 hl hr with ⟨hp, _⟩ | hret
     · exfalso
@@ -150,7 +173,7 @@ theorem mapStream_next_terminates (cfg : Stream.Cfg) (hc : cfg.code = Stream.cod
       · simp [hsrc] at h'
     · exact hret
   · obtain ⟨ls, s', h1, h2, h3⟩ := SM.exists_next_run hs hg s (SM.nu s) s h h0 (Nat.le_refl _)
-    have := SM.run_nu h2 (fun l hm => SM.isCall_of_service (h1 l hm))
+    have := SM.run_nu hs.ctxPlain h2 (fun l hm => SM.isCall_of_service (h1 l hm))
     exact ⟨ls, s', h1, h2, by omega, h3⟩
 
 /-- non-vacuity: `Next` is called while item 0 is still inside `f` and the dispatcher inside the source;
@@ -176,11 +199,11 @@ theorem mapStream_close_terminates (cfg : Stream.Cfg) (hc : cfg.code = Stream.co
       SM.Quiescent cfg s' → Stream.fRunning s' = 0 → Stream.srcBusy s' = false → s'.cons = .closed) ∧
     (∃ ls s', (∀ l ∈ ls, Stream.Label.isEnv l = false ∨ SM.isReturn l = true) ∧
       Stream.run cfg s ls = some s' ∧ ls.length ≤ SM.nu s ∧ s'.cons = .closed) := by
-  have hs : cfg.code.Sound := hc ▸ stream_code_sound
+  have hs : cfg.code.Sound := hc ▸ stream_code_sound stream_ties
   have hp : SM.closePhase s.cons = true := by simp [hclose, SM.closePhase]
-  refine ⟨?_, (mapStream_measure cfg).2 hc hg s h, ?_, ?_⟩
+  refine ⟨?_, (mapStream_measure cfg hc).2 hg s h, ?_, ?_⟩
   · intro ls s' hr
-    exact SM.run_nu hr (SM.closePhase_run hp hr).1
+    exact SM.run_nu hs.ctxPlain hr (SM.closePhase_run hp hr).1
   · intro ls s' hr hq hf hsrc
     have hp' := (SM.closePhase_run hp hr).2
     cases hc' : s'.cons with
@@ -193,7 +216,7 @@ theorem mapStream_close_terminates (cfg : Stream.Cfg) (hc : cfg.code = Stream.co
       · simp [hsrc] at h'
     | _ => simp [hc', SM.closePhase] at hp'
   · obtain ⟨ls, s', h1, h2, h3⟩ := SM.exists_close_run hs hg (SM.nu s) s h hp (Nat.le_refl _)
-    have := SM.run_nu h2 (fun l hm => SM.isCall_of_service (h1 l hm))
+    have := SM.run_nu hs.ctxPlain h2 (fun l hm => SM.isCall_of_service (h1 l hm))
     exact ⟨ls, s', h1, h2, by omega, h3⟩
 
 /-- non-vacuity: `Close` is called while one result sits in `c`, one call of `f` is running and the
@@ -213,13 +236,14 @@ example : ∃ s s', Stream.Reach ⟨Stream.code, 1, 2, 8⟩ s ∧ s.cons = .clos
 `mapStream_close_terminates` is `mapIterator_next_terminates`, applied to each of the consumer's calls. -/
 
 /-- **The measure (MapIterator).** Every step other than `nextCall` strictly decreases `IM.nu` (in every
-state; the only fact about the code used is the guard `inFlight >= bufferSize`), and in reachable states
+state; the facts about the code used are the guard `inFlight >= bufferSize` and `sectionsAtomic`: the
+dispatcher's check-and-park is one step, `dPark` is not a step of the code as it is), and in reachable states
 `IM.nu ≤ 6·max(B,P') + 3·P' + 15`. -/
 theorem mapIterator_measure (cfg : Iter.Cfg) (hc : cfg.code = Iter.code) :
     (∀ s l s', Iter.step cfg s l = some s' → l ≠ .nextCall → IM.nu cfg s' < IM.nu cfg s) ∧
     (1 ≤ cfg.gmp → ∀ s, Iter.Reach cfg s →
       IM.nu cfg s ≤ 6 * (max cfg.B (Iter.par cfg)).toNat + 3 * (Iter.par cfg).toNat + 15) := by
-  have hs : cfg.code.Sound := hc ▸ iter_code_sound
+  have hs : cfg.code.Sound := hc ▸ iter_code_sound iter_ties
   refine ⟨fun s l s' h hl => IM.nu_decreases hs h hl, ?_⟩
   intro hg s h
   have := IM.nu_le hs hg h
@@ -235,7 +259,9 @@ example : (List.range 15).map (fun n => (Iter.run ⟨Iter.code, 1, 1, 8⟩ (Iter
        some 7, some 15] := by
   decide
 
-/-- **Internal steps terminate (MapIterator).** -/
+/-- **Internal steps terminate (MapIterator).** From any reachable state every sequence of internal steps
+(`isEnv = false`: dispatcher incl. parking and being woken, workers, consumer) has
+`length + IM.nu(end) ≤ IM.nu(start) ≤ 6·max(B,P') + 3·P' + 15`; there is no infinite internal run. -/
 theorem mapIterator_internal_steps_terminate (cfg : Iter.Cfg) (hc : cfg.code = Iter.code) (hg : 1 ≤ cfg.gmp)
     (s : Iter.St) (h : Iter.Reach cfg s) :
     (∀ ls s', (∀ l ∈ ls, Iter.Label.isEnv l = false) → Iter.run cfg s ls = some s' →
@@ -243,7 +269,7 @@ theorem mapIterator_internal_steps_terminate (cfg : Iter.Cfg) (hc : cfg.code = I
       ls.length ≤ 6 * (max cfg.B (Iter.par cfg)).toNat + 3 * (Iter.par cfg).toNat + 15) ∧
     ¬ ∃ σ : Nat → Iter.St, σ 0 = s ∧
         ∀ n, ∃ l, Iter.Label.isEnv l = false ∧ Iter.step cfg (σ n) l = some (σ (n + 1)) := by
-  have hs : cfg.code.Sound := hc ▸ iter_code_sound
+  have hs : cfg.code.Sound := hc ▸ iter_code_sound iter_ties
   have hb := (mapIterator_measure cfg hc).2 hg s h
   constructor
   · intro ls s' hl hr
@@ -278,7 +304,7 @@ theorem mapIterator_quiescent_next_served (cfg : Iter.Cfg) (hc : cfg.code = Iter
     (∃ ls s', (∀ l ∈ ls, Iter.Label.isEnv l = false) ∧ Iter.run cfg s ls = some s' ∧
         ls.length ≤ IM.nu cfg s ∧ IM.Quiescent cfg s') ∧
     (IM.Quiescent cfg s → s.cons = .next → 0 < Iter.fRunning s ∨ s.disp = .inNext) := by
-  have hs : cfg.code.Sound := hc ▸ iter_code_sound
+  have hs : cfg.code.Sound := hc ▸ iter_code_sound iter_ties
   constructor
   · obtain ⟨ls, s', h1, h2, h3⟩ := IM.exists_quiescent_run hs (IM.nu cfg s) s (Nat.le_refl _)
     have := IM.run_nu hs h2 (fun l hm => IM.ne_nextCall_of_not_env (h1 l hm))
@@ -312,7 +338,7 @@ theorem mapIterator_next_terminates (cfg : Iter.Cfg) (hc : cfg.code = Iter.code)
       s'.cons = .idle ∧ ∃ r, s'.results = s.results ++ [r]) ∧
     (∃ ls s', (∀ l ∈ ls, Iter.Label.isEnv l = false ∨ IM.isReturn l = true) ∧
       Iter.run cfg s ls = some s' ∧ ls.length ≤ IM.nu cfg s ∧ s'.cons = .idle ∧ ∃ r, s'.results = s.results ++ [r]) := by
-  have hs : cfg.code.Sound := hc ▸ iter_code_sound
+  have hs : cfg.code.Sound := hc ▸ iter_code_sound iter_ties
   have h0 : IM.NextOutcome s s := Or.inl ⟨hn, rfl⟩
   refine ⟨?_, (mapIterator_measure cfg hc).2 hg s h, ?_, ?_⟩
   · intro ls s' hl hr
@@ -347,7 +373,7 @@ theorem mapIterator_drain_terminates (cfg : Iter.Cfg) (hc : cfg.code = Iter.code
     (s : Iter.St) (h : Iter.Reach cfg s) (hend : s.srcEnded = true) :
     (∀ ls s', Iter.run cfg s ls = some s' → Iter.NextRes.end ∉ s'.results → ls.length + IM.delta s' ≤ IM.delta s) ∧
     (∃ ls s', Iter.run cfg s ls = some s' ∧ Iter.NextRes.end ∈ s'.results ∧ ls.length ≤ IM.delta s + 1) := by
-  have hs : cfg.code.Sound := hc ▸ iter_code_sound
+  have hs : cfg.code.Sound := hc ▸ iter_code_sound iter_ties
   have hd : s.disp = .done := by
     have hse := (I.invA hs hg h).SE
     rw [hend] at hse
